@@ -30,7 +30,10 @@ SPEC = {
             'the 256 leaves of one merkle tree) read completely, then 0..5 requested intervals (sizes 1..17, 1 in 60 of 255..300; at 0, mid, '
             'ending at 2^64-1, inverted, full), scripted reader answer per '
             'chain from complete / honest database reader that holds the interval and its neighbours and answers exactly the range it is asked for / unordered / prefix / suffix / gap / duplicate (extra, replacing) / window shifted up or down / '
-            'extra below or above / wrong source chain (one, all) / empty / nil / error / hasher error / one short, '
+            'extra below or above / wrong source chain (one, all) / empty / nil / error / hasher error / one short / '
+            'window of the right size shifted by 1 or 2 and listed with in-range messages first and last and the out-of-range ones between them '
+            '(4,6,5 or 3,2,4 for [3->5]) / right count with exactly one out-of-range number in a middle position (ends also swapped) / inner message '
+            'repeating another number / inner message of a foreign source chain, '
             'supported-chain set and on-ramp address lookup with failures. '
             'hist: per history ONE Processor built by NewProcessor (real observerImpl; 4 or 7 oracles, F = 1 or 2; tree size 1,2,3,4,256; '
             'attempt limit 1,2,3,5; 1 history in 8 with sequence numbers just below 2^64) is driven for 8..16 rounds through Observation and '
@@ -45,7 +48,8 @@ SPEC = {
             'previous outcome / on-ramp growth and finality lag / off-ramp cursor / source-chain curses, global and destination curse, curse read error / '
             'supported chains, SupportsDestChain, their errors / known chains and their listing order / home-chain fChain of every chain and its error / '
             'on-ramp address rebinding, nil address, address error / message reorganisation (same numbers, new ids) / reader modes (unordered, error, gap, '
-            'duplicate, hasher error, one short; NextSeqNum error, one short, one long; expected-next error or 0)). '
+            'duplicate, hasher error, one short, shifted unordered window with in-range ends, one middle message out of range, inner duplicate, inner '
+            'foreign-chain message; half of the histories that vary the reader use only that adversarial family; NextSeqNum error, one short, one long; expected-next error or 0)). '
             'non-trivial = lim: valid range, n>=1, size within one of n or end within 257 of 2^64; rng: >= 1 chain with something '
             'pending and n >= 1; roots: >= 1 supported interval with a non-error reader answer; C02_hist: selecting round with consensus and >= 1 chain '
             'with both numbers agreed, building round with >= 1 agreed root or a retry, waiting round with consensus; C02_hobs: building round with a '
